@@ -10,11 +10,13 @@
 package websocket
 
 import (
+	"bufio"
 	"bytes"
 	"encoding/binary"
 	"fmt"
 	"io"
 	"net"
+	"net/http"
 	"os"
 	"strings"
 	"testing"
@@ -29,9 +31,19 @@ type vC14Conn struct {
 	chunks []int // sizes handed out per Read, cycled; 0 = everything
 	ci     int
 	wr     bytes.Buffer
+	// handshake sessions: once everything scripted so far has been read and the endpoint has written
+	// something (its handshake message), respond(written) supplies what the peer sends next
+	respond func(written []byte) []byte
+	hsLen   int // length of the endpoint's handshake message at the time respond ran
 }
 
 func (c *vC14Conn) Read(p []byte) (int, error) {
+	if c.pos >= len(c.data) && c.respond != nil && c.wr.Len() > 0 {
+		f := c.respond
+		c.respond = nil
+		c.hsLen = c.wr.Len()
+		c.data = append(c.data, f(c.wr.Bytes())...)
+	}
 	if c.pos >= len(c.data) {
 		return 0, io.EOF
 	}
@@ -202,6 +214,7 @@ type vC14Verdict struct {
 	ctlInFrag bool // a control frame arrived while a fragmented message was open
 	saw64     bool
 	maxLen    uint64 // largest declared payload length among the headers parsed
+	sawRsv1   bool   // some parsed header had RSV1 set
 	consumed  int // bytes of whole frames processed
 }
 
@@ -235,6 +248,9 @@ func vC14Spec(server bool, limit int64, wire []byte) vC14Verdict {
 		}
 		if h.length > v.maxLen {
 			v.maxLen = h.length
+		}
+		if h.rsv&4 != 0 {
+			v.sawRsv1 = true
 		}
 		if h.rsv != 0 || h.masked != server {
 			v.outcome = vC14OViolation
@@ -307,6 +323,104 @@ func vC14Spec(server bool, limit int64, wire []byte) vC14Verdict {
 	}
 }
 
+// ---------------------------------------------------------------- connections made by the real handshake
+// k.hs = (side enable offer): side 0 = Upgrader.Upgrade answering a hand-written client handshake that
+// offers (offer = 1) or does not offer permessage-deflate; side 1 = Dialer.Dial against a hand-written
+// server that accepts the extension iff it was offered and offer = 1.  enable = EnableCompression on
+// the library side.  Everything runs over the scripted transport; the crafted frames (k.wire) are
+// what the peer sends right after the handshake.  Returns the connection and, if the negotiation
+// itself went wrong (extension in the response although not offered / not enabled, ...), a message.
+type vC14Hijack struct {
+	conn net.Conn
+	brw  *bufio.ReadWriter
+	hdr  http.Header
+}
+
+func (h *vC14Hijack) Header() http.Header         { return h.hdr }
+func (h *vC14Hijack) Write(p []byte) (int, error) { return h.conn.Write(p) }
+func (h *vC14Hijack) WriteHeader(int)             {}
+func (h *vC14Hijack) Hijack() (net.Conn, *bufio.ReadWriter, error) {
+	return h.conn, h.brw, nil
+}
+
+const vC14Ext = "permessage-deflate; server_no_context_takeover; client_no_context_takeover"
+
+func vC14HasExt(msg []byte) bool {
+	for _, line := range strings.Split(string(msg), "\r\n") {
+		i := strings.Index(line, ":")
+		if i > 0 && strings.EqualFold(line[:i], "Sec-WebSocket-Extensions") && strings.Contains(line[i:], "permessage-deflate") {
+			return true
+		}
+	}
+	return false
+}
+
+func vC14Handshake(k vC14Case, nc *vC14Conn, bufSize int) (*Conn, string) {
+	if len(k.hs) != 3 {
+		return nil, "bad configuration"
+	}
+	side, enable, offer := k.hs[0], k.hs[1] == 1, k.hs[2] == 1
+	frames := nc.data
+	if side == 0 {
+		req := "GET /verif HTTP/1.1\r\nHost: verif\r\nUpgrade: websocket\r\nConnection: Upgrade\r\n" +
+			"Sec-WebSocket-Key: dGhlIHNhbXBsZSBub25jZQ==\r\nSec-WebSocket-Version: 13\r\n"
+		if offer {
+			req += "Sec-WebSocket-Extensions: " + vC14Ext + "\r\n"
+		}
+		req += "\r\n"
+		nc.data = []byte(req)
+		nc.respond = func([]byte) []byte { return frames }
+		br := bufio.NewReader(nc)
+		r, err := http.ReadRequest(br)
+		if err != nil {
+			return nil, err.Error()
+		}
+		u := Upgrader{EnableCompression: enable, ReadBufferSize: bufSize, WriteBufferSize: 1024}
+		w := &vC14Hijack{conn: nc, brw: bufio.NewReadWriter(br, bufio.NewWriter(nc)), hdr: http.Header{}}
+		c, err := u.Upgrade(w, r, nil)
+		if err != nil {
+			return nil, err.Error()
+		}
+		resp := nc.wr.Bytes()
+		if !bytes.HasPrefix(resp, []byte("HTTP/1.1 101 ")) || !bytes.HasSuffix(resp, []byte("\r\n\r\n")) {
+			return nil, "no 101 response"
+		}
+		if got, want := vC14HasExt(resp), enable && offer; got != want {
+			return c, fmt.Sprintf("extension in the response: %v, enabled %v, offered %v", got, enable, offer)
+		}
+		return c, ""
+	}
+	offered := false
+	nc.data = nil
+	nc.respond = func(written []byte) []byte {
+		key := ""
+		for _, line := range strings.Split(string(written), "\r\n") {
+			i := strings.Index(line, ":")
+			if i > 0 && strings.EqualFold(line[:i], "Sec-WebSocket-Key") {
+				key = strings.TrimSpace(line[i+1:])
+			}
+		}
+		offered = vC14HasExt(written)
+		resp := "HTTP/1.1 101 Switching Protocols\r\nUpgrade: websocket\r\nConnection: Upgrade\r\nSec-WebSocket-Accept: " +
+			computeAcceptKey(key) + "\r\n"
+		if offered && offer {
+			resp += "Sec-WebSocket-Extensions: " + vC14Ext + "\r\n"
+		}
+		resp += "\r\n"
+		return append([]byte(resp), frames...)
+	}
+	d := Dialer{EnableCompression: enable, ReadBufferSize: bufSize, WriteBufferSize: 1024,
+		NetDial: func(network, addr string) (net.Conn, error) { return nc, nil }}
+	c, _, err := d.Dial("ws://verif/verif", nil)
+	if err != nil {
+		return nil, err.Error()
+	}
+	if offered != enable {
+		return c, fmt.Sprintf("extension offered in the request: %v, EnableCompression %v", offered, enable)
+	}
+	return c, ""
+}
+
 // ---------------------------------------------------------------- running the implementation
 func vC14ErrSx(err error) vSx {
 	switch {
@@ -338,12 +452,43 @@ type vC14Case struct {
 	wire   []byte
 	pat    []bool // pattern session: pat[i] = abandon the i-th message (NextReader, then NextReader again)
 	isPat  bool
+	apps   []vC14App // application-side writes scheduled before the k-th ReadMessage
+	isApp  bool
+	hs     []int // connection made by the real handshake: see vC14ExecHS
+	isHS   bool
+}
+
+type vC14App struct {
+	k    int
+	kind int // 0 WriteControl, 1 WriteMessage
+	t    int
+	data []byte
 }
 
 func vC14Decode(c vSx) (vC14Case, bool) {
 	var k vC14Case
-	if !c.isList() || (len(c.l) != 5 && len(c.l) != 6) || !c.l[4].isBytes() {
+	if !c.isList() || len(c.l) < 5 || len(c.l) > 8 || !c.l[4].isBytes() {
 		return k, false
+	}
+	for i := 5; i < len(c.l); i++ {
+		if !c.l[i].isList() {
+			return k, false
+		}
+	}
+	if len(c.l) == 7 {
+		k.isApp = true
+		for _, a := range c.l[6].l {
+			if !a.isList() || len(a.l) != 4 || !a.l[3].isBytes() {
+				return k, false
+			}
+			k.apps = append(k.apps, vC14App{a.l[0].int(), a.l[1].int(), a.l[2].int(), a.l[3].b})
+		}
+	}
+	if len(c.l) == 8 {
+		k.isHS = true
+		for _, x := range c.l[7].l {
+			k.hs = append(k.hs, x.int())
+		}
 	}
 	if len(c.l) == 6 {
 		if !c.l[5].isList() {
@@ -403,6 +548,7 @@ type vC14Run struct {
 	wbad    string
 	panicked bool
 	abandoned []bool
+	codes     []int // results of the application-side writes: 0 nil, 1 ErrCloseSent, 2 other
 }
 
 func vC14Exec(k vC14Case) (run vC14Run) {
@@ -414,7 +560,19 @@ func vC14Exec(k vC14Case) (run vC14Run) {
 			run.obs = vPanicObs()
 		}
 	}()
-	c := newConn(nc, k.server, bufSize, 1024)
+	var c *Conn
+	if k.isHS {
+		var herr string
+		c, herr = vC14Handshake(k, nc, bufSize)
+		if c == nil {
+			run.wbad = "handshake: " + herr
+			run.obs = vL(vL(), vL())
+			return run
+		}
+		run.wbad = herr
+	} else {
+		c = newConn(nc, k.server, bufSize, 1024)
+	}
 	c.SetReadLimit(k.limit)
 	var results []vSx
 	extra := -1
@@ -446,7 +604,30 @@ func vC14Exec(k vC14Case) (run vC14Run) {
 		}
 		extra = 0
 	}
+	readIdx := 0
 	for !k.isPat {
+		if k.isApp && extra < 0 {
+			for _, a := range k.apps {
+				if a.k != readIdx {
+					continue
+				}
+				var werr error
+				if a.kind == 0 {
+					werr = c.WriteControl(a.t, a.data, time.Now().Add(time.Second))
+				} else {
+					werr = c.WriteMessage(a.t, a.data)
+				}
+				switch {
+				case werr == nil:
+					run.codes = append(run.codes, 0)
+				case werr == ErrCloseSent:
+					run.codes = append(run.codes, 1)
+				default:
+					run.codes = append(run.codes, 2)
+				}
+			}
+			readIdx++
+		}
 		mt, p, err := c.ReadMessage()
 		if err != nil {
 			results = append(results, vC14ErrSx(err))
@@ -475,7 +656,7 @@ func vC14Exec(k vC14Case) (run vC14Run) {
 	run.results = results
 	// parse what the endpoint wrote with the RFC parser (as the peer would)
 	var ws []vSx
-	w := nc.wr.Bytes()
+	w := nc.wr.Bytes()[nc.hsLen:]
 	for len(w) > 0 {
 		st, h, rest := vC14Header(w)
 		if st != vC14HOk {
@@ -606,6 +787,250 @@ func vC14WriteBack(k vC14Case, run vC14Run, v vC14Verdict, pongs [][]byte) (stri
 	return "", ""
 }
 
+// direct oracle for sessions in which the application itself writes between its reads (RFC 6455
+// 5.5.1 / 7.1.2-7.1.4): before its own Close every write goes out and every Ping is answered; its
+// own Close goes out once; after it the endpoint writes nothing more except, optionally, Pongs (no
+// data frame, no second Close), every later application write is refused with ErrCloseSent -- and
+// the reader keeps delivering what the peer sends until the peer's Close (judged by vC14Judge:
+// delivered messages and the final error are the RFC receiver's, whatever the application wrote).
+func vC14WriteBackApp(k vC14Case, run vC14Run, v vC14Verdict) (string, string) {
+	type exp struct {
+		op       int
+		payload  []byte
+		optional bool
+		what     string
+	}
+	var want []exp
+	var wantCodes []int
+	latched := false
+	nmsg := 0
+	for _, e := range v.events {
+		if !e.pong {
+			nmsg++
+		}
+	}
+	appsFor := func(i int) {
+		for _, a := range k.apps {
+			if a.k != i {
+				continue
+			}
+			if latched {
+				wantCodes = append(wantCodes, 1)
+				continue
+			}
+			wantCodes = append(wantCodes, 0)
+			want = append(want, exp{a.t, a.data, false, fmt.Sprintf("application write before read %d", i)})
+			if a.t == 8 {
+				latched = true
+			}
+		}
+	}
+	read := 0
+	appsFor(0)
+	for _, e := range v.events {
+		if e.pong {
+			want = append(want, exp{10, e.payload, latched, "pong"})
+		} else {
+			read++
+			appsFor(read)
+		}
+	}
+	if !latched {
+		switch v.outcome {
+		case vC14OViolation:
+			want = append(want, exp{8, []byte{3, 234}, false, "close 1002"})
+		case vC14OTooBig:
+			want = append(want, exp{8, []byte{3, 241}, false, "close 1009"})
+		case vC14OClosed:
+			if v.code >= 0 {
+				want = append(want, exp{8, []byte{byte(v.code >> 8), byte(v.code)}, false, "close echo"})
+			} else {
+				want = append(want, exp{8, nil, false, "close echo"})
+			}
+		case vC14OCut:
+			if v.cutInHdr {
+				want = append(want, exp{8, []byte{3, 234}, true, "close 1002"})
+			}
+		}
+	}
+	for i, h := range run.writes {
+		if !h.fin || h.rsv != 0 || h.masked == k.server || (h.op >= 8 && (h.length > 125 || h.ext)) {
+			return "written-frame-valid", fmt.Sprintf("written frame %d: op=%d fin=%v rsv=%d masked=%v len=%d", i, h.op, h.fin, h.rsv, h.masked, h.length)
+		}
+	}
+	j := 0
+	for _, e := range want {
+		ok := false
+		if j < len(run.writes) && run.writes[j].op == e.op {
+			p := run.wpay[j]
+			if e.what == "close 1002" {
+				ok = len(p) >= 2 && p[0] == 3 && p[1] == 234 && vC14Utf8(p[2:])
+			} else {
+				ok = bytes.Equal(p, e.payload)
+			}
+		}
+		if ok {
+			j++
+		} else if !e.optional {
+			got := "nothing"
+			if j < len(run.writes) {
+				got = fmt.Sprintf("opcode %d payload %x", run.writes[j].op, run.wpay[j])
+			}
+			return "app-write-back", fmt.Sprintf("expected %s (opcode %d payload %x) as written frame %d, found %s", e.what, e.op, e.payload, j, got)
+		}
+	}
+	if j != len(run.writes) {
+		return "app-write-back", fmt.Sprintf("unexpected written frame %d: opcode %d payload %x (own close sent: %v)", j, run.writes[j].op, run.wpay[j], latched)
+	}
+	if len(run.codes) != len(wantCodes) {
+		return "app-write-result", fmt.Sprintf("%d application writes executed, expected %d", len(run.codes), len(wantCodes))
+	}
+	for i := range wantCodes {
+		if run.codes[i] != wantCodes[i] {
+			return "app-write-result", fmt.Sprintf("application write %d returned class %d, expected %d (1 = ErrCloseSent)", i, run.codes[i], wantCodes[i])
+		}
+	}
+	return "", ""
+}
+
+func vC14AppSx(a vC14App) vSx { return vL(vI(a.k), vI(a.kind), vI(a.t), vB(a.data)) }
+
+func vC14RandApp(r *vRng, k int) vC14App {
+	code := r.pickInt(1000, 1001, 1008, 1011, 3000, 4999)
+	body := []byte{byte(code >> 8), byte(code)}
+	switch r.intn(9) {
+	case 0:
+		return vC14App{k, 0, 8, body}
+	case 1:
+		return vC14App{k, 1, 8, body}
+	case 2:
+		return vC14App{k, 0, 8, append(body, []byte("bye")...)}
+	case 3:
+		return vC14App{k, r.intn(2), 8, nil}
+	case 4:
+		return vC14App{k, 0, 9, r.bytes(r.pickInt(0, 1, 125))}
+	case 5:
+		return vC14App{k, 0, 10, r.bytes(r.pickInt(0, 4))}
+	case 6:
+		return vC14App{k, 1, 9, r.bytes(2)}
+	default:
+		return vC14App{k, 1, r.pickInt(1, 2), r.bytes(r.pickInt(0, 1, 125, 126, 200))}
+	}
+}
+
+// application writes at random points of a random session
+func vC14GenApp(r *vRng) vSx {
+	c := vC14GenSession(r)
+	n := r.rng(1, 4)
+	var apps []vC14App
+	for i := 0; i < n; i++ {
+		apps = append(apps, vC14RandApp(r, r.intn(5)))
+	}
+	// the model applies them in list order for equal k: keep them sorted by k
+	for i := 1; i < len(apps); i++ {
+		for j := i; j > 0 && apps[j-1].k > apps[j].k; j-- {
+			apps[j-1], apps[j] = apps[j], apps[j-1]
+		}
+	}
+	var as []vSx
+	for _, a := range apps {
+		as = append(as, vC14AppSx(a))
+	}
+	return vL(c.l[0], c.l[1], c.l[2], vZ(0), c.l[4], vL(), vLs(as))
+}
+
+// connections from the real handshake, all combinations of EnableCompression and of the peer's
+// offer / acceptance; RSV bits on data, continuation and control frames; the verdict depends on
+// what was NEGOTIATED (no RSV1 frames are sent where the extension was negotiated: that is C13's
+// ground), never on the option alone
+func vC14HandshakeSweep(r *vRng, nRandom int, emit func(c vSx)) {
+	for side := 0; side <= 1; side++ {
+		server := side == 0
+		for enable := 0; enable <= 1; enable++ {
+			for offer := 0; offer <= 1; offer++ {
+				negotiated := enable == 1 && offer == 1
+				hs := vL(vI(side), vI(enable), vI(offer))
+				mk := func(op int, fin bool, rsv int, p []byte) []byte {
+					f := vC14Mk(r, server, op, fin, p)
+					f.rsv = rsv
+					return vC14Ser(f)
+				}
+				ping := mk(9, true, 0, []byte("pp"))
+				frag := mk(1, false, 0, []byte("ab"))
+				msg := mk(2, true, 0, []byte{1, 2, 3})
+				cl := mk(8, true, 0, []byte{3, 232})
+				emit(vL(vZ(vC14Fixed()), vBool(server), vZ(0), vZ(0), vB(append(append(append([]byte{}, ping...), msg...), cl...)), vL(), vL(), hs))
+				for rsv := 1; rsv <= 7; rsv++ {
+					if negotiated && rsv&4 != 0 {
+						continue
+					}
+					bad := [][]byte{mk(1, true, rsv, []byte("hi")), mk(2, false, rsv, nil), mk(9, true, rsv, []byte("x")),
+						mk(10, true, rsv, nil), mk(8, true, rsv, []byte{3, 232}),
+						append(append([]byte{}, frag...), mk(0, true, rsv, []byte("c"))...),
+						append(append([]byte{}, frag...), mk(9, true, rsv, nil)...)}
+					for _, b := range bad {
+						emit(vL(vZ(vC14Fixed()), vBool(server), vZ(0), vZ(0), vB(b), vL(), vL(), hs))
+						emit(vL(vZ(vC14Fixed()), vBool(server), vZ(0), vZ(0), vB(append(append(append([]byte{}, msg...), ping...), b...)), vL(), vL(), hs))
+					}
+				}
+				for i := 0; i < nRandom; i++ {
+					for {
+						c := vC14GenSession(r)
+						kc, _ := vC14Decode(c)
+						kc.server = server
+						// regenerate for this role
+						if (c.l[1].int() == 1) != server {
+							continue
+						}
+						if negotiated && vC14Spec(server, kc.limit, kc.wire).sawRsv1 {
+							continue
+						}
+						emit(vL(c.l[0], c.l[1], c.l[2], vZ(0), c.l[4], vL(), vL(), hs))
+						break
+					}
+				}
+			}
+		}
+	}
+}
+
+// the situation of the property's last clause, deterministically: the application sends its own
+// Close (either API, with / without status) before read k, then the peer goes on: Ping, a message
+// fragmented around a Ping, Ping, a second message, finally its own Close 1001 "bye"
+func vC14OwnCloseSweep(emit func(c vSx)) {
+	for _, server := range []bool{false, true} {
+		r := &vRng{s: 0xC105E}
+		var wire []byte
+		add := func(op int, fin bool, p []byte) { wire = append(wire, vC14Ser(vC14Mk(r, server, op, fin, p))...) }
+		add(9, true, []byte("p1"))
+		add(1, false, []byte("he"))
+		add(9, true, []byte("p2"))
+		add(0, false, []byte("ll"))
+		add(0, true, []byte("o"))
+		add(9, true, nil)
+		add(2, true, []byte{1, 2, 3})
+		add(10, true, []byte("x"))
+		add(8, true, append([]byte{3, 233}, []byte("bye")...))
+		for k := 0; k <= 3; k++ {
+			for _, own := range []vC14App{{k, 0, 8, []byte{3, 232}}, {k, 1, 8, []byte{3, 232}}, {k, 0, 8, nil}, {k, 1, 8, append([]byte{3, 232}, []byte("done")...)}} {
+				for _, more := range [][]vC14App{nil, {{k, 1, 2, []byte("late")}}, {{k + 1, 0, 9, []byte("q")}, {k + 1, 0, 8, []byte{3, 232}}}} {
+					for cut := 0; cut < 2; cut++ {
+						w := wire
+						if cut == 1 {
+							w = wire[:len(wire)-3] // the peer's Close is cut: unexpected EOF, still no spurious error before
+						}
+						as := []vSx{vC14AppSx(own)}
+						for _, a := range more {
+							as = append(as, vC14AppSx(a))
+						}
+						emit(vL(vZ(vC14Fixed()), vBool(server), vZ(0), vZ(0), vB(w), vL(), vLs(as)))
+					}
+				}
+			}
+		}
+	}
+}
+
 // direct oracle: judge the implementation's run against the RFC receiver's verdict.
 func vC14Judge(k vC14Case, run vC14Run, v vC14Verdict) (string, string) {
 	if run.panicked {
@@ -664,7 +1089,11 @@ func vC14Judge(k vC14Case, run vC14Run, v vC14Verdict) (string, string) {
 		}
 	}
 	// what the endpoint wrote back, judged from the written bytes and the RFC receiver's verdict alone
-	if fo, fd := vC14WriteBack(k, run, v, pongs); fo != "" {
+	if k.isApp {
+		if fo, fd := vC14WriteBackApp(k, run, v); fo != "" {
+			return fo, fd
+		}
+	} else if fo, fd := vC14WriteBack(k, run, v, pongs); fo != "" {
 		return fo, fd
 	}
 	var closes [][]byte
@@ -680,6 +1109,21 @@ func vC14Judge(k vC14Case, run vC14Run, v vC14Verdict) (string, string) {
 	err := run.errs[0]
 	ce, isClose := err.(*CloseError)
 	closeCode := func() int {
+		if k.isApp {
+			// judged by vC14WriteBackApp; here only the error value is at stake
+			switch v.outcome {
+			case vC14OViolation:
+				return 1002
+			case vC14OTooBig:
+				return 1009
+			case vC14OClosed:
+				return v.code
+			}
+			if v.cutInHdr && len(run.errs) > 0 && run.errs[0] != errUnexpectedEOF {
+				return 1002
+			}
+			return -2
+		}
 		if len(closes) == 0 {
 			return -2
 		}
@@ -737,7 +1181,7 @@ func vC14Judge(k vC14Case, run vC14Run, v vC14Verdict) (string, string) {
 		if closeCode != v.code {
 			return "close-echo", fmt.Sprintf("peer close %d, echoed %d", v.code, closeCode)
 		}
-		if v.code >= 0 && len(closes[0]) != 2 {
+		if !k.isApp && v.code >= 0 && len(closes[0]) != 2 {
 			return "close-echo", "echoed close carries a reason"
 		}
 	}
@@ -1316,6 +1760,13 @@ func TestVerifC14(t *testing.T) {
 		obs := run.obs
 		if !run.panicked {
 			obs = vL(obs.l[0], obs.l[1], evs, out)
+			if kc.isApp {
+				var cs []vSx
+				for _, x := range run.codes {
+					cs = append(cs, vI(x))
+				}
+				obs = vL(obs.l[0], obs.l[1], evs, out, vLs(cs))
+			}
 		}
 		nontrivial := v.ctlInFrag || v.outcome == vC14OViolation || v.saw64
 		idx := k.record(c, obs, nontrivial)
@@ -1338,6 +1789,13 @@ func TestVerifC14(t *testing.T) {
 	// 0. every first-violation class and every close-reason length, deterministically
 	vC14ViolationSweep(func(c vSx) { k.count("kind", "violation-sweep"); runOne(c) })
 	vC14CloseSweep(func(c vSx) { k.count("kind", "close-sweep"); runOne(c) })
+	vC14HandshakeSweep(k.rnd, k.N(60, 600), func(c vSx) { k.count("kind", "real-handshake"); runOne(c) })
+	vC14OwnCloseSweep(func(c vSx) { k.count("kind", "own-close-sweep"); runOne(c) })
+	nApp := k.N(3000, 25000)
+	for i := 0; i < nApp; i++ {
+		k.count("kind", "app-writes")
+		runOne(vC14GenApp(k.rnd))
+	}
 	// 1. abstract alphabet, exhaustively
 	depth, full64 := 3, 1
 	if k.thorough() {
